@@ -153,6 +153,7 @@ macro_rules! shared_types {
             "tup_u8_opt" => $f::<(u8, Option<u8>)>($a), "tup_opt_opt" => $f::<(Option<u8>, Option<String>)>($a), "tup1_opt" => $f::<(Option<i64>,)>($a),
             "vec_tup_opt" => $f::<Vec<(u8, Option<i8>)>>($a), "tup_unit_last" => $f::<(u8, ())>($a), "tup_nested_opt" => $f::<(u8, (u8, Option<bool>))>($a),
             "map_tup_opt" => $f::<BTreeMap<u8, (bool, Option<u16>)>>($a),
+            "wdeque_u16" => $f::<Wrapped<u16>>($a), "wdeque_str" => $f::<Wrapped<String>>($a), "tup_wdeque" => $f::<(Wrapped<u8>, u8)>($a),
             _ => $else
         }
     };
